@@ -101,8 +101,10 @@ fn viol(ctx: &mut Ctx, n: usize, op: &ZOp, what: &str, detail: String) {
         ZOp::PushBack | ZOp::PushFront | ZOp::TryPushBack | ZOp::TryPushFront => &["C02", "C01"],
         _ => &["C01"],
     };
-    for p in also {
-        ctx.violation(p, format!("zst|op={}|ncap={}|{}", op.name(), ncl, what), format!("{:?}: {}; case={}", op, detail, c));
+    if what != "missing_documented_panic" {
+        for p in also {
+            ctx.violation(p, format!("zst|op={}|ncap={}|{}", op.name(), ncl, what), format!("{:?}: {}; case={}", op, detail, c));
+        }
     }
     if what == "unexpected_panic" || what == "missing_documented_panic" || what == "changed_by_panicking_call" {
         ctx.violation("C11", format!("zst|op={}|ncap={}|{}", op.name(), ncl, what), format!("{:?}: {}; case={}", op, detail, c));
@@ -345,7 +347,7 @@ fn zstep<const N: usize>(b: &mut CircularBuffer<N, Z>, len: &mut usize, op: &ZOp
             }
         }
         Ok(Err(m)) => {
-            viol(ctx, N, op, "wrong_result", m);
+            viol(ctx, N, op, if documented_panic { "missing_documented_panic" } else { "wrong_result" }, m);
             *len = b.len();
             true
         }
